@@ -10,7 +10,7 @@ from lxml import etree
 
 from metapype.model import metapype_io
 from metapype.model.node import Node
-from harness.hlib import nodes, snap_links, part, bound
+from harness.hlib import fresh, nodes, snap_links, part, bound
 
 _P = part(0)
 FLD = _P % 10            # 0: text of the child element is symbolic, 1: its tail, 2: text of the root, 3: grandchild text
@@ -68,6 +68,10 @@ def _doc(val: Optional[str], redeclare: bool):
     ns_c = {"p": "urn:p2", "q": "urn:q"} if redeclare else ({"p": "urn:p", "q": "urn:q"} if AKIND == 9 else ns_root)
     if redeclare and AKIND != 3:
         ns_c = {"p": "urn:p2"}
+    if AKIND == 4:
+        # the root's URI stays reachable in the child, but under ANOTHER prefix; the child re-binds p
+        r.attrib["{urn:p}a2"] = "1"
+        ns_c = {"p": "urn:p2", "q": "urn:p"}
     c = r.append(Elem("c", ns_c, None, text=(val if FLD == 0 else " x  y "), tail=(val if FLD == 1 else "\n  ")))
     if AKIND == 0:
         c.attrib["b"] = "v"
@@ -78,7 +82,12 @@ def _doc(val: Optional[str], redeclare: bool):
     elif AKIND == 3:
         c.attrib["{%s}b" % ns_c["p"]] = "v"
         c.attrib["plain"] = "w"
+    elif AKIND == 4:
+        c.attrib["{urn:p}b"] = "v"          # must come back as q:b
+        c.attrib["{urn:p2}c"] = "w"         # and this one as p:c
     g = c.append(Elem("{%s}g" % ns_c["p"], ns_c, "p", text=(val if FLD == 3 else None), tail=None))
+    if AKIND == 4:
+        g.attrib["{urn:p}b"] = "v2"
     c.append(Comment())
     d = r.append(Elem("{urn:p}d", ns_root, "p", text=None, tail="\n"))
     return r
@@ -172,7 +181,7 @@ def h_import(val: Optional[str], clean: bool, collapse: bool, literal: bool, red
     pre: val is None or (len(val) <= MAXLEN and in_alpha(val))
     post: _ == ""
     """
-    Node.store.clear()
+    fresh()
     literals = ("c", "g") if literal else ("zz",)
     e = _doc(val, redeclare)
     root = metapype_io._process_element(e, clean, collapse, literals)
@@ -218,7 +227,7 @@ def _esc(t):
 
 def native_via_from_xml(val, clean, collapse, literal, redeclare) -> str:
     """Same expectations, but the document goes through the real parser and the public from_xml."""
-    Node.store.clear()
+    fresh()
     literals = ("c", "g") if literal else ("zz",)
     e = _doc(val, redeclare)
     doc = _serialise(e)
@@ -285,7 +294,7 @@ def h_loop(val: Optional[str], collapse: bool) -> str:
     pre: val is None or (len(val) <= MAXLEN and in_alpha(val))
     post: _ == ""
     """
-    Node.store.clear()
+    fresh()
     ns_root = {"p": "urn:p"}
     r = Elem("{urn:p}r", ns_root, "p", text=None)
     c = r.append(Elem("c", {"p": "urn:p2"} if AKIND == 3 else ns_root, None, text=(val if FLD == 0 else "x"), tail=(val if FLD == 1 else None)))
